@@ -236,10 +236,15 @@ def test_optima(rng):
     for fi in (False, True):
         pr = make_problem(X, ybin, "Logistic", {}, "L1", dict(alpha=0.05), fi)
         w, b, obj, _ = pr.reference_optimum()
-        sk = LogisticRegression(penalty="l1", C=1 / (n * 0.05), fit_intercept=fi, tol=1e-12,
-                                solver="liblinear", intercept_scaling=1e4, max_iter=100000)
-        sk.fit(X, ybin)
-        o_sk = pr.objective(sk.coef_[0], sk.intercept_[0] if fi else 0.0)
+        # (liblinear shuffles with its own generator and occasionally stops early: the external
+        # witness is the best of a few fixed seeds - any point is an upper bound of the optimum)
+        o_sk = np.inf
+        for rs in range(4):
+            sk = LogisticRegression(penalty="l1", C=1 / (n * 0.05), fit_intercept=fi, tol=1e-12,
+                                    solver="liblinear", intercept_scaling=1e4, max_iter=100000,
+                                    random_state=rs)
+            sk.fit(X, ybin)
+            o_sk = min(o_sk, pr.objective(sk.coef_[0], sk.intercept_[0] if fi else 0.0))
         check(abs(obj - o_sk) <= 1e-5 * (1 + abs(obj)) and obj <= o_sk + 1e-9,
               f"logreg optimum fi={fi}: {obj} vs {o_sk}")
         amax, _ = pr.alpha_max()
@@ -259,9 +264,12 @@ def test_optima(rng):
     C = 0.7
     pr = make_problem(X, ybin, "QuadraticSVC", {}, "IndicatorBox", dict(alpha=C), False)
     a, _, dobj, _ = pr.reference_optimum(max_iter=50000)
-    sk = LinearSVC(C=C, loss="hinge", fit_intercept=False, tol=1e-12, max_iter=1000000).fit(X, ybin)
-    wp = sk.coef_[0]
-    primal = 0.5 * wp @ wp + C * np.sum(np.maximum(0, 1 - ybin * (X @ wp)))
+    primal = np.inf
+    for rs in range(4):     # weak duality: every primal value bounds -dobj from above
+        sk = LinearSVC(C=C, loss="hinge", fit_intercept=False, tol=1e-12, max_iter=1000000,
+                       random_state=rs).fit(X, ybin)
+        wp = sk.coef_[0]
+        primal = min(primal, 0.5 * wp @ wp + C * np.sum(np.maximum(0, 1 - ybin * (X @ wp))))
     check(abs(primal + dobj) <= 1e-5 * (1 + abs(primal)), f"svc duality {primal} vs {-dobj}")
     # group lasso via celer if present
     try:
